@@ -731,3 +731,58 @@ Section Term.
       + cbn [b_res]. unfold c. nia.
   Qed.
 End Term.
+
+(* ------------------------------------------------------------------ the whole evaluate terminates *)
+(* an explicit fuel that suffices: (initial flaw / 2 + 1) * (|districts| + |parties| + 2) *)
+Definition fuel_bound (d : Z -> Q) (q : Q) (votes : mat) (tgt : list (C * Z)) (dorder : list C) (n : Z) : nat :=
+  match binit d q votes n with
+  | inr s => ((Z.to_nat (flaw tgt dorder (b_res s) / 2) + 1) * (length (districts votes) + length (parties votes) + 2))%nat
+  | inl _ => 0%nat
+  end.
+Definition fuel_bound_total (d : Z -> Q) (q : Q) (votes : mat) (dorder : list C) (n : Z) : nat :=
+  match HighestAverages.evaluate d (district_totals votes) n [] [] with
+  | HA_ok tgt None => fuel_bound d q votes tgt dorder n
+  | _ => 0%nat
+  end.
+
+Section WholeTerm.
+  Variable d : Z -> Q.
+  Variables q k : Q.
+  Hypothesis Hq0 : (0 <= q)%Q.
+  Hypothesis Hq1 : (q < 1)%Q.
+  Hypothesis Hk : (0 < k)%Q.
+  Hypothesis Hd : forall s, (d s == k * (inject_Z s + 1 - q))%Q.
+  Variable votes : mat.
+  Hypothesis Hwf : wf_votes votes.
+  Hypothesis Hvnn : forall i j, 0 <= mget votes i j.
+  Variable dorder : list C.
+  Hypothesis Hdo : NoDup dorder.
+
+  Lemma binit_error n e : binit d q votes n = inl e -> e <> BP_out_of_fuel.
+  Proof. unfold binit. destruct (initial_solution d votes n); intros [= <-]; discriminate. Qed.
+
+  Theorem evaluate_core_terminates strict tgt n fuel : strict = true \/ (exists i j, 0 < mget votes i j) ->
+    (fuel_bound d q votes tgt dorder n <= fuel)%nat ->
+    evaluate_core d q votes tgt dorder strict n fuel <> BP_out_of_fuel.
+  Proof.
+    intros Hs Hf. unfold evaluate_core. destruct (refuses_empty votes strict) eqn:Er; [discriminate|].
+    unfold fuel_bound in Hf. destruct (binit d q votes n) as [e|s] eqn:Ei; [apply (binit_error n e Ei)|].
+    destruct (Z_lt_le_dec n 0) as [Hn|Hn].
+    { exfalso. unfold binit, initial_solution in Ei. rewrite (evaluate_nonpos d (party_totals votes) n) in Ei by lia. discriminate. }
+    pose proof (not_refused_some votes Hwf Hvnn strict Hs Er) as Hsome.
+    destruct (binit_inv d q k Hq0 Hq1 Hk Hd votes Hwf Hvnn Hsome n Hn s Ei) as (pseats & _ & I).
+    apply (bloop_terminates q Hq0 Hq1 votes Hwf pseats tgt dorder Hdo fuel s 0%nat I (upd_min_0 q votes tgt dorder Hdo s)); [lia|].
+    unfold K. nia.
+  Qed.
+
+  Theorem evaluate_total_terminates strict n fuel : strict = true \/ (exists i j, 0 < mget votes i j) ->
+    (fuel_bound_total d q votes dorder n <= fuel)%nat ->
+    evaluate_total d q votes strict n dorder fuel <> BP_out_of_fuel.
+  Proof.
+    intros Hs Hf. unfold evaluate_total. destruct (refuses_empty votes strict) eqn:Er; [discriminate|].
+    destruct (binit d q votes n) as [e|s] eqn:Ei; [apply (binit_error n e Ei)|].
+    unfold fuel_bound_total in Hf.
+    destruct (evaluate d (district_totals votes) n [] []) as [tgt [t|]|]; try discriminate.
+    apply (evaluate_core_terminates strict tgt n fuel Hs Hf).
+  Qed.
+End WholeTerm.
